@@ -1,9 +1,14 @@
 ------------------------------ MODULE TracePid ------------------------------
-(* C08: every call recorded from the REAL packet_id_allocator (env TRACE) must *)
-(* be the step PidAlloc takes: same return value, same interval list.  used   *)
-(* is not tracked here (65535-element sets); that the interval algorithm      *)
-(* means "least identifier not in use" is what PidAlloc.cfg checks            *)
-(* exhaustively (Refinement, AllocReturnsLeast).                              *)
+(* C08 on the REAL packet_id_allocator (call records, env TRACE).              *)
+(* PROPERTY level (lines "VIOL"): whatever the allocation policy and the data  *)
+(* structure, allocate() must return an identifier of 1..65535 that is not in  *)
+(* use, and 0 only when none is free.  The identifiers in use are tracked here *)
+(* from the calls alone (`mine`: the free ones as a normalised interval list,  *)
+(* maintained with the specification's own FreeOf / Take).                     *)
+(* DESIGN level (lines "DEV", reported as CONFORMANCE-DEVIATION, never as a    *)
+(* violation): the call is the step PidAlloc.tla takes - least free identifier, *)
+(* same interval list.  That the interval algorithm means "least identifier    *)
+(* not in use" is what PidAlloc.cfg checks exhaustively.                       *)
 EXTENDS Integers, Sequences, TLC, Json, IOUtils
 
 MaxPid == 65535
@@ -11,33 +16,45 @@ VARIABLES iv, used, last          \* PidAlloc's variables (used/last unused here
 P == INSTANCE PidAlloc
 
 Ev == ndJsonDeserialize(IOEnv.TRACE)
-VARIABLE i
+VARIABLES i, mine
 
 Logged(r) == [k \in 1..Len(r.iv) |-> P!Iv(r.iv[k][1], r.iv[k][2])]
 
-Init == i = 1 /\ iv = <<P!Iv(MaxPid, 0)>> /\ used = {} /\ last = [op |-> "init", arg |-> 0, ret |-> 0]
+Init == i = 1 /\ iv = <<P!Iv(MaxPid, 0)>> /\ mine = <<P!Iv(MaxPid, 0)>> /\ used = {} /\ last = [op |-> "init", arg |-> 0, ret |-> 0]
 
+\* interval [s, e] stands for the free identifiers e+1 .. s
+IsFree(v, p) == \E k \in DOMAIN v : v[k].e < p /\ p <= v[k].s
+Take(v, p) ==
+    LET k == CHOOSE k \in DOMAIN v : v[k].e < p /\ p <= v[k].s
+        hi == IF p < v[k].s THEN <<P!Iv(v[k].s, p)>> ELSE << >>          \* p+1 .. s
+        lo == IF v[k].e < p - 1 THEN <<P!Iv(p - 1, v[k].e)>> ELSE << >>  \* e+1 .. p-1
+    IN SubSeq(v, 1, k - 1) \o hi \o lo \o SubSeq(v, k + 1, Len(v))
+
+\* result: new model list, new own free list, violations, deviations
 Step(r) ==
-    CASE r.op = "reset" -> [iv |-> <<P!Iv(MaxPid, 0)>>, ok |-> {}]
+    CASE r.op = "reset" -> [iv |-> <<P!Iv(MaxPid, 0)>>, mine |-> <<P!Iv(MaxPid, 0)>>, v |-> {}, d |-> {}]
       [] r.op = "alloc" -> LET a == P!AllocOf(iv) IN
                            [iv |-> a.iv,
-                            ok |-> (IF a.ret # r.r THEN {"C08_a_AllocateNotLeastFree"} ELSE {})
-                                   \cup (IF a.iv # Logged(r) THEN {"C08_s_IntervalListDiffers"} ELSE {})
-                                   \cup (IF r.r = 0 /\ iv # << >> THEN {"C08_d_OverrunWhileIdsFree"} ELSE {})]
+                            mine |-> IF r.r # 0 /\ IsFree(mine, r.r) THEN Take(mine, r.r) ELSE mine,
+                            v |-> (IF r.r = 0 /\ mine # << >> THEN {"C08_d_OverrunWhileIdsFree"} ELSE {})
+                                  \cup (IF r.r # 0 /\ (r.r < 1 \/ r.r > MaxPid) THEN {"C08_b_IdOutOfRange"} ELSE {})
+                                  \cup (IF r.r >= 1 /\ r.r <= MaxPid /\ ~IsFree(mine, r.r) THEN {"C08_b_AllocatedIdInUse"} ELSE {}),
+                            d |-> (IF a.ret # r.r THEN {"alloc:not-least-free"} ELSE {})
+                                  \cup (IF a.iv # Logged(r) THEN {"alloc:interval-list-differs"} ELSE {})]
       [] r.op = "free"  -> LET f == P!FreeOf(iv, r.p) IN
-                           [iv |-> f, ok |-> IF f # Logged(r) THEN {"C08_s_IntervalListDiffers"} ELSE {}]
+                           [iv |-> f, mine |-> IF IsFree(mine, r.p) THEN mine ELSE P!FreeOf(mine, r.p), v |-> {},
+                            d |-> IF f # Logged(r) THEN {"free:interval-list-differs"} ELSE {}]
 
 Next == /\ i <= Len(Ev)
         /\ LET s == Step(Ev[i]) IN
-           /\ \A cl \in s.ok : PrintT("VIOL " \o ToString(i) \o " " \o cl)
+           /\ \A cl \in s.v : PrintT("VIOL " \o ToString(i) \o " " \o cl)
+           /\ \A cl \in s.d : PrintT("DEV " \o ToString(i) \o " " \o cl)
            \* after a disagreement follow the implementation, so that the rest of the trace is still checked
-           /\ iv' = IF s.ok = {} THEN s.iv ELSE Logged(Ev[i])
+           /\ iv' = IF s.d = {} THEN s.iv ELSE Logged(Ev[i])
+           /\ mine' = s.mine
         /\ i' = i + 1 /\ UNCHANGED <<used, last>>
-Spec == Init /\ [][Next]_<<i, iv, used, last>>
+Spec == Init /\ [][Next]_<<i, iv, mine, used, last>>
 
-\* the structural invariant of the list, on the implementation's own states
-Structure == /\ \A k \in DOMAIN iv : iv[k].s > iv[k].e /\ iv[k].e >= 0 /\ iv[k].s <= MaxPid
-             /\ \A k \in 1..(Len(iv) - 1) : iv[k].e > iv[k + 1].s
 Accepted == \/ TLCGet("stats").diameter - 1 = Len(Ev)
             \/ PrintT("REJECTED") /\ FALSE
 =============================================================================
